@@ -13,6 +13,8 @@ import (
 	"strconv"
 	"strings"
 	"sync"
+
+	"verif/tools/instr"
 )
 
 // selftest determinism: the same (seed, run index) must give the same event log
@@ -204,4 +206,52 @@ func selftestSeeded(ids []string) int {
 	}
 	fmt.Println("selftest seeded: every kept change is caught")
 	return 0
+}
+
+// selftest passthrough: the source rewriter must not change behaviour outside a
+// simulation. A copy of /repo *with* its test files is instrumented and the
+// repository's own test suite is run against it (shims fall through to the
+// real primitives), in the default and in the binary_log build.
+func selftestPassthrough() int {
+	tmp, err := os.MkdirTemp("", "verif-passthrough-")
+	if err != nil {
+		fmt.Fprintln(os.Stderr, err)
+		return 2
+	}
+	defer os.RemoveAll(tmp)
+	if err := copyTree("/repo", tmp, func(rel string, d fs.DirEntry) bool {
+		return d.IsDir() && (rel == ".git" || rel == "cmd")
+	}); err != nil {
+		fmt.Fprintln(os.Stderr, err)
+		return 2
+	}
+	if err := copyTree(filepath.Join(verifDir, "sim", "zsim"), filepath.Join(tmp, "zsim"), nil); err != nil {
+		fmt.Fprintln(os.Stderr, err)
+		return 2
+	}
+	if _, err := instr.Run(tmp); err != nil {
+		fmt.Fprintln(os.Stderr, err)
+		return 2
+	}
+	gm, _ := os.ReadFile(filepath.Join(tmp, "go.mod"))
+	gms := regexp.MustCompile(`(?m)^go [0-9.]+$`).ReplaceAllString(string(gm), "go 1.21") + "\nrequire github.com/anishathalye/porcupine v1.3.0\n"
+	os.WriteFile(filepath.Join(tmp, "go.mod"), []byte(gms), 0o644)
+	rc := 0
+	for _, args := range [][]string{
+		{"test", "-count=1", ".", "./diode/...", "./hlog/...", "./internal/...", "./log/...", "./pkgerrors/..."},
+		{"test", "-count=1", "-tags", "binary_log", "."},
+	} {
+		cmd := exec.Command("go", args...)
+		cmd.Dir = tmp
+		cmd.Env = env()
+		out, err := cmd.CombinedOutput()
+		fmt.Printf("go %s\n%s", strings.Join(args, " "), out)
+		if err != nil {
+			rc = 1
+		}
+	}
+	if rc == 0 {
+		fmt.Println("selftest passthrough: the repository's suite passes on the instrumented copy")
+	}
+	return rc
 }
